@@ -280,7 +280,7 @@ pub fn expected_build(m: &BModel, typed: bool) -> Result<BuiltExpect, Vec<String
 /// Value universe U of the exhaustive part.
 pub const U_VALUES: &[&str] = &[
     "", "a", "A", "/", "a/b", "//", ".", "..", "a/../b", "%", "%41", "@", "?", "#", "&", "=", "a&b=c", " ", "+", "é",
-    "ǅ", "-_.", "a:00", "B:ff,a:00", ":", ",",
+    "ǅ", "-_.", "a:00", "B:ff,a:00", ":", ",", "...", "a/.../b", "a:b:00", "a:+a",
 ];
 
 pub const U_KEYS: &[&str] = &["k", "K", "checksum", "Checksum", "a.b-c_1", "", "!", "é", "k%", "\u{212A}"];
